@@ -13,6 +13,7 @@ import json, os, shutil, subprocess, sys, tempfile
 
 ENV = dict(os.environ, GOFLAGS="-mod=mod", GOPROXY="off")
 ENV.pop("GOSUMDB", None)
+RACE = "-race" if os.environ.get("SEED_RACE") else ""  # demo tests that rely on the race detector
 
 def sh(cmd, cwd=None, timeout=1800):
     p = subprocess.run(cmd, cwd=cwd, shell=True, env=ENV, stdout=subprocess.PIPE, stderr=subprocess.STDOUT, timeout=timeout)
@@ -36,7 +37,7 @@ def main():
     try:
         demo_dst = os.path.join(scratch, pkg, "zz_seeded_demo_test.go")
         shutil.copy(demo, demo_dst)
-        rc0, out0 = sh("go test -count=1 -run TestSeededDemo ./%s/" % pkg, cwd=scratch, timeout=600)
+        rc0, out0 = sh("go test %s -count=1 -run TestSeededDemo ./%s/" % (RACE, pkg), cwd=scratch, timeout=600)
         res["demo_passes_without_change"] = rc0 == 0
         ran.append("go test -run TestSeededDemo ./%s/ (unchanged): rc=%d" % (pkg, rc0))
         os.unlink(demo_dst)
@@ -49,7 +50,7 @@ def main():
             res["existing_tests_pass_with_change"] = rc1 == 0
             ran.append("go build ./... && go test ./... (with change): rc=%d" % rc1)
             shutil.copy(demo, demo_dst)
-            rc2, out2 = sh("go test -count=1 -run TestSeededDemo ./%s/" % pkg, cwd=scratch, timeout=600)
+            rc2, out2 = sh("go test %s -count=1 -run TestSeededDemo ./%s/" % (RACE, pkg), cwd=scratch, timeout=600)
             res["demo_fails_with_change"] = rc2 != 0
             ran.append("go test -run TestSeededDemo ./%s/ (with change): rc=%d" % (pkg, rc2))
             res["demo_output_tail"] = out2[-600:]
